@@ -21,6 +21,25 @@ def handleOps (op : String) (args impl : List String) : Verdict :=
         | some (ys, []) => if decide (Spec.WF xs) then ys == Spec.addSpec d xs else true
         | _ => false
     | _, _ => .bad "ops.add: parse"
+  | "ops.add2", d1 :: d2 :: _spare :: rest =>
+    match d1.toInt?, d2.toInt?, decItems rest with
+    | some d1, some d2, some (xs, []) =>
+      -- two calls in a row: the second one knows nothing of the first
+      compare (encItems (Ops.add d2 (Ops.add d1 xs))) (joinToks impl) fun _ =>
+        match decItems impl with
+        | some (ys, []) => if decide (Spec.WF xs) then ys == Spec.addSpec d2 (Spec.addSpec d1 xs) else true
+        | _ => false
+    | _, _, _ => .bad "ops.add2: parse"
+  | "ops.frag2", f :: g :: sh :: _spare :: rest =>
+    match f.toInt?, g.toInt?, sh.toInt?, decItems rest with
+    | some f, some g, some sh, some (xs, []) =>
+      let mid := (Ops.fragment f xs).map fun it => { it with startAt := it.startAt + sh, endAt := it.endAt + sh }
+      compare (encItems (Ops.fragment g mid)) (joinToks impl) fun _ =>
+        match decItems impl with
+        | some (ys, []) =>
+          if decide (0 < g) && decide (Spec.WF mid) && decide (Spec.StartOrdered mid) then Spec.fragmentOk g mid ys else true
+        | _ => false
+    | _, _, _, _ => .bad "ops.frag2: parse"
   | "ops.forceduration", d :: b :: _spare :: rest =>
     match d.toInt?, b.toNat?, decItems rest with
     | some d, some b, some (xs, []) =>
